@@ -43,8 +43,8 @@ int main(void) {
             continue;
         }
         if (!strncmp(line, "open ", 5)) {
-            clockbound_err err;
-            memset(&err, 0, sizeof err);
+            /* the error struct is reused across calls, as a caller's would be: stale fields must not leak */
+            static clockbound_err err;
             if (ctx) { clockbound_close(ctx); ctx = NULL; }
             ctx = clockbound_open(line + 5, &err);
             if (ctx) printf("ok\n"); else print_err(&err);
